@@ -466,6 +466,13 @@ func (tb *TB) Add(a, b *Term) *Term {
 	if b.IsConst() && a.Op == OpAdd && a.B.IsConst() {
 		return tb.Add(a.A, tb.Const(a.T, a.B.V+b.V))
 	}
+	// modular identities (exact for wrap-around arithmetic): a + (b - a) = b
+	if b.Op == OpSub && b.B == a {
+		return b.A
+	}
+	if a.Op == OpSub && a.B == b {
+		return a.A
+	}
 	return tb.bin(OpAdd, a.T, a, b)
 }
 func (tb *TB) Sub(a, b *Term) *Term {
@@ -477,6 +484,18 @@ func (tb *TB) Sub(a, b *Term) *Term {
 	}
 	if b.IsConst() && !a.IsConst() {
 		return tb.Add(a, tb.Const(a.T, -b.V))
+	}
+	// (a + b) - a = b ; (a + b) - b = a ; a - (a - b) = b   (exact modulo 2^w)
+	if a.Op == OpAdd {
+		if a.A == b {
+			return a.B
+		}
+		if a.B == b {
+			return a.A
+		}
+	}
+	if b.Op == OpSub && b.A == a {
+		return b.B
 	}
 	return tb.bin(OpSub, a.T, a, b)
 }
